@@ -4,7 +4,7 @@
 # usage: confirm_seed.sh <ID> [props to check...]
 id=$1; shift; props=${@:-$id}; exec > >(tee /tmp/seed_out/$id/confirm.log) 2>&1
 wt=/tmp/wt_confirm; out=/tmp/seed_out/$id
-git -C $wt checkout -q -- . ; git -C $wt clean -fdq -e _build
+git -C $wt checkout -q -- . ; git -C $wt clean -fdq -e _build; git -C $wt checkout -q --detach $(git -C /repo rev-parse HEAD)
 echo "== patch"; head -50 $out/patch.diff
 git -C $wt apply $out/patch.diff || { echo "PATCH DOES NOT APPLY to a clean tree"; exit 1; }
 git -C $wt status --short | grep -v _build
